@@ -228,6 +228,13 @@ func (c *conn) statement(kind, query string, named []driver.NamedValue) (*result
 		c.srv.finish(idx, e.Seq, injected, 0, 0, nil, true)
 		return nil, nil, injected
 	}
+	if c.tx != nil && c.tx.readOnly {
+		if u := strings.ToUpper(strings.TrimSpace(query)); strings.HasPrefix(u, "INSERT") || strings.HasPrefix(u, "UPDATE") || strings.HasPrefix(u, "DELETE") || strings.HasPrefix(u, "REPLACE") {
+			err := myErr(1792, "Cannot execute statement in a READ ONLY transaction.")
+			c.srv.finish(idx, e.Seq, err, 0, 0, nil, false)
+			return nil, nil, err
+		}
+	}
 	rs, res, writes, err := c.run(query, args)
 	var aff int64
 	rows := 0
@@ -339,7 +346,18 @@ func (c *conn) BeginTx(ctx context.Context, opts driver.TxOptions) (driver.Tx, e
 	if c.dead {
 		return nil, errBadConn
 	}
-	idx, e, injected, drop := c.srv.begin(c, "BEGIN", "START TRANSACTION", nil)
+	// like go-sql-driver: a non-default isolation level is set for the next transaction first, READ ONLY is
+	// part of the START TRANSACTION text
+	if opts.Isolation != driver.IsolationLevel(sql.LevelDefault) {
+		if _, _, err := c.statement("E", "SET TRANSACTION ISOLATION LEVEL "+strings.ToUpper(sql.IsolationLevel(opts.Isolation).String()), nil); err != nil {
+			return nil, err
+		}
+	}
+	text := "START TRANSACTION"
+	if opts.ReadOnly {
+		text += " READ ONLY"
+	}
+	idx, e, injected, drop := c.srv.begin(c, "BEGIN", text, nil)
 	if injected != nil {
 		if drop {
 			c.kill()
@@ -350,6 +368,9 @@ func (c *conn) BeginTx(ctx context.Context, opts driver.TxOptions) (driver.Tx, e
 	}
 	c.srv.mu.Lock()
 	err := c.beginLocked()
+	if err == nil && c.tx != nil {
+		c.tx.readOnly = opts.ReadOnly
+	}
 	c.srv.mu.Unlock()
 	c.srv.finish(idx, e.Seq, err, 0, 0, nil, false)
 	if err != nil {
